@@ -74,7 +74,7 @@ theorem bePayload_ok (t : PTy) (dg : Bytes) (n : Nat) (hn : n ≤ dg.length) (by
     split at h
     · cases h
     · rename_i hmin
-      unfold minSample at hmin
+      unfold minSampleLong GmQuic.Gen.C03.minSampleLong at hmin
       rw [if_neg (by omega), if_neg (by omega)] at h
       cases h
       refine ⟨List.take_append_drop _ _, ?_, ?_, ?_⟩
@@ -169,7 +169,7 @@ theorem bePacket_ok (dg : Bytes) (dcidLen : Nat) (p : Packet) (rest : Bytes) (h 
         split at h
         · cases h
         · rename_i hs
-          unfold minSample at hs
+          unfold minSampleShort GmQuic.Gen.C03.minSampleShort at hs
           rw [if_neg (by omega)] at h
           cases h
           exact ⟨⟨by simp, by omega, by omega⟩, by simp; omega⟩
